@@ -31,10 +31,28 @@ def register(op):
     def _(a):
         c, u, n, out = a
         r, rs, p = reaction(n)
+        # a second reaction of the same arity with another constant is converted to the same units first: a conversion
+        # answers for the reaction it is asked of, whatever was converted before
+        r0 = bc.ReactionS(rs, [p], "open")
+        if r0 is r:
+            raise RuntimeError("harness: second reaction is the same object")
         r.rate_constant = (c, u)
+        try:
+            r0.rate_constant = (7 if c != 7 else 3, u)
+            r0.rateformat(out)
+        except Exception:
+            pass
         res = r.rateformat(out)
         if res[1] != out:
             raise RuntimeError("units not passed through")
+        stored = r.rate_constant
+        try:
+            r.rateformat("/M" * (n - 1) + "/s")
+        except Exception:
+            pass
+        again = r.rateformat(out)
+        if repr(again) != repr(res) or repr(r.rate_constant) != repr(stored):
+            raise RuntimeError("rateformat is not repeatable or changes the stored constant")
         return res[0]
 
     @op("rate_set_get")
@@ -58,7 +76,15 @@ def register(op):
         d = bc.DomainS("a", 5)
         x = bc.ComplexS([d], ["."], name="X")
         x.concentration = (mode, v, u)
+        y = bc.ComplexS([d, d], [".", "."], name="Y")
+        try:
+            y.concentration = (mode, 7 if v != 7 else 3, u)
+            y.concentrationformat(out)
+        except Exception:
+            pass
         res = x.concentrationformat(out)
+        if repr(x.concentrationformat(out)) != repr(res):
+            raise RuntimeError("concentrationformat is not repeatable")
         if res[0] != mode or res[2] != out or x.concentration != (mode, v, u):
             raise RuntimeError("mode/unit not passed through")
         return res[1]
